@@ -127,9 +127,9 @@ def pairs(rng, n, worlds, tampers, p_tamper):
 
 def gen_cases(rng, tier, escalate=False):
     mult = 4 if escalate else 1
-    n_honest = {"quick": 8, "thorough": 90}[tier] * mult
-    n_fork = {"quick": 10, "thorough": 110}[tier] * mult
-    n_craft = {"quick": 24, "thorough": 260}[tier] * mult
+    n_honest = {"quick": 8, "thorough": 80}[tier] * mult
+    n_fork = {"quick": 10, "thorough": 100}[tier] * mult
+    n_craft = {"quick": 24, "thorough": 240}[tier] * mult
     npairs = {"quick": 14, "thorough": 22}[tier]
     cases = []
     peers = airgen.PEERS[:3]
@@ -217,7 +217,12 @@ def evaluate(cases, result, tier):
         return
     full_terms = terms
     terms, _names = shorten(full_terms)
-    fails, errs = vlib.coq_eval_cases("sigs", HEADER, "case_t", {"model": "check_case", "oracle": "c15_oracle"}, terms, shard_size=150)
+    checks = {"model": "check_case", "oracle": "c15_oracle"}
+    fails, errs = vlib.coq_eval_cases("sigs", HEADER, "case_t", checks, terms, shard_size=150)
+    if any("inconsistent assumptions" in e for e in errs):
+        # another check regenerated coq/gen/Generated.v while the shards were running: rebuild and evaluate once more
+        vlib.coq_make(MODEL_TARGETS)
+        fails, errs = vlib.coq_eval_cases("sigs", HEADER, "case_t", checks, terms, shard_size=150)
     result["errors"].extend(errs)
 
     def single(ci, ti):
